@@ -203,5 +203,23 @@ contract(f"{C}::Calibrator.__init__",
                   "self.ensemble_size == ensemble_size and self.verbose == verbose",
                   "implies(sim_length is None, self.N == real_data.shape[0])",
                   "implies(sim_length is not None, self.N == sim_length)", "self.D == real_data.shape[1]",
-                  "implies(scheduler is not None and samplers is None, self.scheduler is scheduler)"],
+                  "implies(scheduler is not None and samplers is None, self.scheduler is scheduler)",
+                  # configuration is stored as given (C04: what restore_from_checkpoint rebuilds)
+                  "self.loss_function is loss_function and self.model is model",
+                  "implies(n_jobs is not None, self.n_jobs == n_jobs)",
+                  "(self.convergence_precision is None) == (convergence_precision is None) and "
+                  "implies(convergence_precision is not None, self.convergence_precision == convergence_precision)",
+                  "(self.saving_folder is None) == (saving_folder is None) and "
+                  "implies(saving_folder is not None, self.saving_folder == saving_folder)",
+                  "(self.random_state is None) == (random_state is None) and "
+                  "implies(random_state is not None, self.random_state == random_state)",
+                  "self.real_data.shape[0] == real_data.shape[0] and self.real_data.shape[1] == real_data.shape[1] and "
+                  "forall(range(0, real_data.shape[0]), lambda r: forall(range(0, real_data.shape[1]), lambda c: "
+                  "self.real_data[r, c] == real_data[r, c]))",
+                  "len(self.param_grid.parameters_precision) == len(parameters_precision) and "
+                  "forall(range(0, len(parameters_precision)), lambda c: self.param_grid.parameters_precision[c] == parameters_precision[c])",
+                  "len(parameters_bounds) == 2 and self.param_grid.parameters_bounds.shape[0] == len(parameters_bounds) and "
+                  "self.param_grid.parameters_bounds.shape[1] == len(parameters_bounds[0]) and "
+                  "forall(range(0, len(parameters_bounds)), lambda r: forall(range(0, len(parameters_bounds[r])), lambda c: "
+                  "self.param_grid.parameters_bounds[r, c] == parameters_bounds[r][c]))"],
          modifies=["self.*"])
